@@ -187,6 +187,7 @@ func (m *Metrics) logMetrics() {
 
 func (m *Metrics) printMetrics() {
 	m.lock.Lock()
+	vhook("m.locked", "print")
 	m.logger.Println("snowflake-stats-end", time.Now().UTC().Format("2006-01-02 15:04:05"), fmt.Sprintf("(%d s)", int(metricsResolution.Seconds())))
 	m.logger.Println("snowflake-ips", m.countryStats.Display())
 	total := len(m.countryStats.unknown)
@@ -213,6 +214,7 @@ func (m *Metrics) printMetrics() {
 func (m *Metrics) zeroMetrics() {
 	m.lock.Lock()
 	defer m.lock.Unlock()
+	vhook("m.locked", "zero")
 	m.proxyIdleCount = 0
 	m.clientDeniedCount = 0
 	m.clientRestrictedDeniedCount = 0
